@@ -23,6 +23,7 @@ def dispatch (cmd : String) (args : List Sexp) : Option String :=
   | "pycore.runO" => Driver.PyCore.runOCmd args
   | "pycore.scopestable" => Driver.PyCore.scopeStableCmd args
   | "pycore.exctable" => Driver.PyCore.excTableCmd args
+  | "rename.applyast" => Driver.PyCore.renameApply args
   | "hoist.place" => Driver.Rename.hoistPlace args
   | "rename.assign" => Driver.Rename.assignCmd args
   | "ministring" => Driver.Strings.ministring args
